@@ -1006,6 +1006,9 @@ class Translator:
             if st.get('kind') != 'DeclStmt':
                 self.abort(st, 'statement in inlined lambda')
             for v in st.get('inner', []):
+                if v.get('kind') == 'DecompositionDecl':
+                    out += self.decomposition(v)
+                    continue
                 init = [x for x in v.get('inner', []) if x and is_expr(x)]
                 if v.get('kind') != 'VarDecl' or not init or v['type']['qualType'].rstrip().endswith('&'):
                     self.abort(v, 'declaration in inlined lambda')
@@ -1800,12 +1803,44 @@ class Translator:
         for v in inner:
             if v['kind'] in ('TypeAliasDecl', 'TypedefDecl', 'UsingDecl', 'StaticAssertDecl', 'UsingDirectiveDecl'):
                 continue
+            if v['kind'] == 'DecompositionDecl':
+                for st in self.decomposition(v):
+                    self.out(st)
+                continue
             if v['kind'] != 'VarDecl':
                 self.abort(v, 'declaration')
             if v['id'] in self.drop_ids:
                 self.cur.dropped.append(('string-local ' + v['name'], self._line(v)))
                 continue
             self.var_decl(v)
+
+    def decomposition(self, v):
+        """structured binding `auto [a, b, ...] = e;` / `const auto& [a, b, ...] = e;` of a pair / tuple / array / record
+        value: binding k names component k of (a copy of, or for references the object itself) e.  Returns the
+        statements to emit."""
+        init = [x for x in v.get('inner', []) if x and is_expr(x)]
+        binds = [x for x in v.get('inner', []) if x and x.get('kind') == 'BindingDecl']
+        if len(init) != 1 or not binds:
+            self.abort(v, 'structured binding shape')
+        ct = self.tm.tname(init[0]['type']).rstrip(' *').rstrip()
+        k = self.tm.kinds.get(ct)
+        if not k or k[0] not in ('tup', 'arr', 'rec'):
+            self.abort(v, 'structured binding of a value of type ' + ct)
+        x = self.e(init[0])
+        out = []
+        is_ref = v['type']['qualType'].rstrip().endswith('&')
+        if not (is_ref and (self._lvalue_text(x) or x.startswith('VEC_AT('))):
+            self.tmpn = getattr(self, 'tmpn', 0) + 1
+            nm = 'verif_sb%d' % self.tmpn
+            out.append('%s %s = %s;' % (ct, nm, x))
+            x = nm
+        n_comp = len(k[1]) if k[0] in ('tup', 'rec') else k[2]
+        if len(binds) != n_comp:
+            self.abort(v, 'structured binding of %d names to %d components' % (len(binds), n_comp))
+        for j, b in enumerate(binds):
+            comp = '_%d' % j if k[0] == 'tup' else ('a[%d]' % j if k[0] == 'arr' else k[1][j][1])
+            self.alias[b['id']] = '%s.%s' % (x, comp)
+        return out
 
     def lambda_of(self, x):
         while x is not None and x.get('kind') in ('ExprWithCleanups', 'CXXConstructExpr', 'MaterializeTemporaryExpr',
@@ -2975,8 +3010,9 @@ class Translator:
         """a REGION of a large function as a function of its own: `loop K from decl:<var> to assign:<member>`.
         The region's free variables become parameters (by address if written or non-scalar); the listed
         locals declared inside the region become out-parameters."""
-        m = re.fullmatch(r'from (?:decl|block):(\w+)(?:#(\d+))? to (?:assign|call):(\w+)', spec.strip())
+        m = re.fullmatch(r'from (?:decl|block):(\w+)(?:#(\d+))? to (?:assign|call|kind):(\w+)', spec.strip())
         to_call = ' to call:' in spec
+        to_kind = ' to kind:' in spec        # `to kind:WhileStmt`: up to and including the first statement of that AST kind
         from_block_start = spec.strip().startswith('from block:')
         if not m:
             raise ExtractError('bad slice description: ' + spec)
@@ -2999,7 +3035,10 @@ class Translator:
             x = st
             while x.get('kind') in ('ExprWithCleanups',) and x.get('inner'):
                 x = x['inner'][0]
-            if to_call:
+            if to_kind:
+                if i0 is not None and i1 is None and x.get('kind') == m1:
+                    i1 = i
+            elif to_call:
                 for y in walk(x):
                     if y.get('kind') in ('CallExpr', 'CXXMemberCallExpr'):
                         rf, _ = self.callee_decl(y['inner'][0])
